@@ -66,16 +66,17 @@ def check(tier):
         collect_logs("E2 space %s%s under ASan/UBSan/LSan" % (sp, "/" + sol if sol else ""))
         results.append(res)
         states += res["summary"]["states"]; trans += res["summary"]["transitions"]
-    if tier == "thorough":
+    if True:
         # misuse continued *through* the failure: exception build under ASan/UBSan (a failed call that left a dangling selection or a
         # half-destroyed instance is used again by the following transitions)
         bx = vbuild.Build("asanx", extra_flags=SAN + ["-DMASA_EXCEPTIONS"], root=b.root).build()
         e2x = os.path.join(bx.dir, "e2sanx")
         bx.compile_harness([os.path.join(VERIF, "src", "e2_main.cpp")], e2x, flags=["-O1", "-w", "-DMASA_EXCEPTIONS"] + SAN, incs=[gen])
-        res = p_e2.run_space(e2x, "c16", "quick", os.path.join(bx.dir, "c16x.out"), env=env_noleak, deadline=p_e2.DEADLINE[tier] / 3)
-        p_e2.add_violations(rep, res, "C19", build="asan+exceptions", only=lambda m: "terminated" in m or "abnormally" in m or "wait status" in m)
-        collect_logs("E2 space c16 (exception build) under ASan/UBSan")
-        results.append(res); states += res["summary"]["states"]; trans += res["summary"]["transitions"]
+        for spx in (["c16n", "c16v", "c16"] if tier == "thorough" else ["c16n", "c16v"]):
+            res = p_e2.run_space(e2x, spx, "quick", os.path.join(bx.dir, spx + "x.out"), env=env_noleak, deadline=p_e2.DEADLINE[tier] / 3)
+            p_e2.add_violations(rep, res, "C19", build="asan+exceptions", only=lambda m: "terminated" in m or "abnormally" in m or "wait status" in m)
+            collect_logs("E2 space %s (exception build) under ASan/UBSan" % spx)
+            results.append(res); states += res["summary"]["states"]; trans += res["summary"]["transitions"]
     samples.append({"oracle": "ASan+UBSan+LSan on E2 spaces", "spaces": [{"space": r["space"], "solution": r["solution"], **r["summary"]} for r in results]})
     # (2) history families: every ordered pair of catalogue solutions (thorough) / every solution with a partner (quick)
     pout = os.path.join(b.dir, "pairs.out")
